@@ -389,6 +389,10 @@ class Model(Object):
             "notes",
             "annotation",
             "groups",
+            # the copy keeps the empty context stack of a new model: while the
+            # original's stack is shared, the undo actions of the copied objects
+            # are recorded on a context that is open on the original
+            "_contexts",
         }
         for attr in self.__dict__:
             if attr not in do_not_copy_by_ref:
